@@ -163,7 +163,7 @@ class C13(Prop):
         if rng.random() < 0.3:
             ck["key_prefix"] = E(b"p:")
         w = {"stack": "hash", "servers": servers, "nodes": nodes, "client_kwargs": ck,
-             "knobs": {"recv_size": 4096}}
+             "knobs": {"recv_size": 4096, "log_debug": rng.random() < 0.1}}
         if resolver:
             w["resolver"] = resolver
         # keys: every server owns at least one
@@ -255,12 +255,20 @@ class C13(Prop):
             steps.append({"t": "node", "id": i, "health": "up"})
         step = q(max(rt * 0.75, dead / 8.0))
         rounds = int(math.ceil((2 * dead + 4 * step + 1) / step))
+        # the traffic of the healing period: reads, or nothing but multi-key writes (a cache warmer / batch loader)
+        writes_only = rng.random() < 0.3
         for _ in range(rounds):
             for k in allkeys:
-                steps.append({"t": "call", "m": "get", "a": [E(k)], "k": {}, "tag": "heal"})
+                if writes_only:
+                    steps.append({"t": "call", "m": "set_many", "a": [E({k: b"1"})], "k": {}, "tag": "heal"})
+                else:
+                    steps.append({"t": "call", "m": "get", "a": [E(k)], "k": {}, "tag": "heal"})
             steps.append({"t": "advance", "dt": step})
         final = len(steps)
         for k in allkeys:
+            if writes_only:
+                steps.append({"t": "call", "m": "set_many", "a": [E({k: b"1"})], "k": {}, "tag": "final"})
+                continue
             steps.append({"t": "call", "m": rng.choice(["get", "set"]), "a": [E(k)] + ([E(b"f")] if False else []),
                           "k": {}, "tag": "final"})
         for st in steps[final:]:
